@@ -124,7 +124,7 @@ type condFact struct {
 	succ  int
 	expr  string
 	iv    Iv
-	neq   bool  // the edge establishes expr != ne
+	neq   bool // the edge establishes expr != ne
 	ne    int64
 	// relational fact: expr OP other, the interval is derived from other's
 	// interval at the branch on first use
